@@ -225,7 +225,7 @@ func (r *Runner) c09Fixtures() map[string]string {
 	// argument validation: non-function arguments, wrong arity, mismatched argument types, unordered types for
 	// min/max/sort, variadic signatures, unhashable elements. Each must be rejected with a diagnostic, or be
 	// accepted with output that type-checks; never a panic, a hang, or exit 0 with an ill-typed package.
-	pre := "type A struct{ X int }\n\ntype B struct{ Y string }\n\ntype NBool bool\n\nfunc one(a int) int { return a }\n\nfunc zero() int { return 0 }\n\nfunc two(a int, b string) bool { return a > len(b) }\n\nfunc vari(a int, bs ...string) int { return a + len(bs) }\n\nfunc ferr() (int, error) { return 0, nil }\n\nfunc serr(s string) (int, error) { return len(s), nil }\n\n"
+	pre := "var errX error = &A{}\n\nfunc (a *A) Error() string { return \"x\" }\n\ntype A struct{ X int }\n\ntype B struct{ Y string }\n\ntype NBool bool\n\nfunc one(a int) int { return a }\n\nfunc zero() int { return 0 }\n\nfunc two(a int, b string) bool { return a > len(b) }\n\nfunc vari(a int, bs ...string) int { return a + len(bs) }\n\nfunc ferr() (int, error) { return 0, nil }\n\nfunc serr(s string) (int, error) { return len(s), nil }\n\n"
 	for name, body := range map[string]string{
 		"flip_one":           "func use() { _ = deriveFlip(one) }",
 		"flip_zero":          "func use() { _ = deriveFlip(zero) }",
@@ -285,13 +285,15 @@ func (r *Runner) c09Fixtures() map[string]string {
 		"mem_funcparam":      "func use() { _ = deriveMem(func(f func()) int { return 0 }) }",
 		"apply_variadic":     "func use() { _ = deriveApply(vari, \"x\") }",
 		"uncurry_variadic":   "func use() { _ = deriveUncurry(func(a int) func(bs ...string) int { return nil }) }",
-		"toerror_variadic":   "func use() { _ = deriveToError(nil, func(a int, bs ...string) (int, bool) { return 0, true }) }",
+		"toerror_variadic":   "func use() { _ = deriveToError(errX, func(a int, bs ...string) (int, bool) { return 0, true }) }",
 		"do_nonfunc":         "func use() { _, _, _ = deriveDo(3, 4) }",
 		"do_noerr":           "func use() { _, _, _ = deriveDo(zero, zero) }",
 		"do_one":             "func use() { _, _ = deriveDo(ferr) }",
 		"tuple_none":         "func use() { _ = deriveTuple() }",
-		"toerror_noresult":   "func use() { _ = deriveToError(nil, zero) }",
-		"toerror_nonfunc":    "func use() { _ = deriveToError(nil, 3) }",
+		"toerror_noresult":   "func use() { _ = deriveToError(errX, zero) }",
+		"toerror_nonfunc":    "func use() { _ = deriveToError(errX, 3) }",
+		"toerror_nobool":    "func use() { _ = deriveToError(errX, one) }",
+		"toerror_noterror":  "func use() { _ = deriveToError(3, func(a int) (int, bool) { return a, true }) }",
 		"traverse_nonfunc":   "func use() { _, _ = deriveTraverse(3, []int{1}) }",
 		"traverse_noerr":     "func use() { _, _ = deriveTraverse(one, []int{1}) }",
 		"unique_func":        "func use() { _ = deriveUnique([]func(){}) }",
